@@ -23,13 +23,13 @@ type PropSpec struct {
 		Labels  []string `json:"labels,omitempty"`  // if set: only obligations whose label matches one of these regexps (plus pre/safe/cover of the function)
 		Exclude []string `json:"exclude,omitempty"` // obligation-name regexps to skip
 	} `json:"functions"`
-	Lemmas      []string `json:"lemmas,omitempty"`
-	Structural  []string `json:"structural,omitempty"` // names of structural (enumeration) obligations
-	Level       string   `json:"level"`
-	Claim       string   `json:"claim"`
-	Assumptions []string `json:"assumptions"`
-	Unverified  []string `json:"unverified,omitempty"`
-	MinObligations int   `json:"min_obligations"`
+	Lemmas         []string `json:"lemmas,omitempty"`
+	Structural     []string `json:"structural,omitempty"` // names of structural (enumeration) obligations
+	Level          string   `json:"level"`
+	Claim          string   `json:"claim"`
+	Assumptions    []string `json:"assumptions"`
+	Unverified     []string `json:"unverified,omitempty"`
+	MinObligations int      `json:"min_obligations"`
 }
 
 type Finding struct {
